@@ -12,7 +12,10 @@ import RedisGoModel.Props.C07Own
     * `GInv` — applied logs pairwise prefix-comparable, ids unique cluster-wide, every applied entry is a submitted proposal, an id
       occurs at most once per applied log;
     * `GInvT` — the cluster-clock history variables are consistent, and an operation answered (at any node) before another was
-      submitted (at any node) is earlier in the log. -/
+      submitted (at any node) is earlier in the log;
+    * `own_reply_shared`, `real_time_shared`, `linearizable_shared`, `applied_agree_len`, `applied_prefix` — the statements over the one
+      shared log; `x11_reach` a two-node example run; `linearizable_needs_sms` — without `RaftFacts` (a) (state-machine safety) the
+      combined history is NOT linearizable although `own_reply` holds at each node. -/
 set_option linter.unusedSectionVars false
 namespace Multi
 open Rendezvous
@@ -762,6 +765,85 @@ example : Linearizable exStep 0 (history x11) ∧ (history x11 (false, false) 0)
 example : (x11.node false).log = (x11.node true).log.take 2 ∧ (x11.node false).sm = 12 ∧ (x11.node true).sm = 13 :=
   ⟨(applied_prefix exStep 0 x11_reach false true (by decide)).1, rfl, rfl⟩
 
+/-! ## `RaftFacts` (a) is needed: without state-machine safety the combined history is not linearizable
+
+    Client A at node `false` submits `5`, client B at node `true` submits `7`; node `false` applies A's entry first, node `true` applies
+    B's entry first (two nodes that disagree on log position 0 — what `RS.C15_state_machine_safety` excludes); A receives `5`, B
+    receives `7`.  Each node ALONE is a perfectly good run of the one-node model (`own_reply` holds at both: each client has the reply of
+    its own command at its own node's log position), but no single order of the two increments explains both replies. -/
+
+/-- no hypothesis on raft -/
+def NoFacts {Node Id Conn S Cmd Reply : Type} (_ : State Node Id Conn S Cmd Reply) (_ : Event Node Id Conn Cmd) : Prop := True
+
+def y1 : ExSt := next exStep (init 0) (.submit false false 5 1)
+def y2 : ExSt := next exStep y1 (.submit true false 7 2)
+def y3 : ExSt := next exStep y2 (.apply false ⟨1, 5⟩)
+def y4 : ExSt := next exStep y3 (.apply true ⟨2, 7⟩)
+def y5 : ExSt := next exStep y4 (.receive false false)
+def y6 : ExSt := next exStep y5 (.receive true false)
+
+theorem y6_reach : Reach exStep 0 NoFacts y6 :=
+  .step (.step (.step (.step (.step (.step .init rfl trivial) rfl trivial) rfl trivial) rfl trivial) rfl trivial) rfl trivial
+
+theorem seqRun_exStep (l : List Nat) (a : Nat) : l.foldl (fun s c => (exStep s c).1) a = l.foldl (· + ·) a := rfl
+
+theorem le_foldl_add (l : List Nat) : ∀ a : Nat, a ≤ l.foldl (· + ·) a ∧ ∀ x, x ∈ l → x ≤ l.foldl (· + ·) a := by
+  induction l with
+  | nil => intro a; exact ⟨Nat.le_refl _, fun x hx => by cases hx⟩
+  | cons y l ih =>
+    intro a
+    simp only [List.foldl_cons]
+    obtain ⟨h1, h2⟩ := ih (a + y)
+    refine ⟨by omega, ?_⟩
+    intro x hx
+    rcases List.mem_cons.1 hx with hx | hx
+    · subst hx; omega
+    · exact h2 x hx
+
+/-- in the accumulator, an operation placed before position `k` has contributed to the state at `k` -/
+theorem le_seqRun_take {seq : List Nat} {j k x : Nat} (hj : seq[j]? = some x) (hjk : j < k) : x ≤ seqRun exStep 0 (seq.take k) := by
+  have hm : x ∈ seq.take k := by
+    apply mem_of_get (k := j)
+    rw [List.getElem?_take, if_pos hjk]; exact hj
+  exact (le_foldl_add _ 0).2 x hm
+
+/-- **without `RaftFacts` (a) the cluster is not linearizable**, although `own_reply` holds at every node -/
+theorem linearizable_needs_sms :
+    ∃ st : ExSt, Reach exStep 0 NoFacts st ∧ (st.node false).log = [⟨1, 5⟩] ∧ (st.node true).log = [⟨2, 7⟩] ∧
+      OwnReply exStep 0 (st.node false) false ∧ OwnReply exStep 0 (st.node true) false ∧
+      ¬ Linearizable exStep 0 (history st) := by
+  refine ⟨y6, y6_reach, rfl, rfl, ?_, ?_, ?_⟩
+  · have r : ReachU exStep 0 (y6.node false) :=
+      Rendezvous.Reach.step (ev := .receive false) (.step (ev := .apply ⟨1, 5⟩) (.step (ev := .submit false 5 1) .init rfl
+        (by simp only [UniqueIds]; decide)) rfl (by simp only [UniqueIds]; decide)) rfl trivial
+    exact own_reply exStep 0 r false
+  · have r : ReachU exStep 0 (y6.node true) :=
+      Rendezvous.Reach.step (ev := .receive false) (.step (ev := .apply ⟨2, 7⟩) (.step (ev := .submit false 7 2) .init rfl
+        (by simp only [UniqueIds]; decide)) rfl (by simp only [UniqueIds]; decide)) rfl trivial
+    exact own_reply exStep 0 r false
+  · rintro ⟨seq, pos, h1, h2, h3, _⟩
+    obtain ⟨jA, pA, rA⟩ := h3 (false, false) 0 ⟨5, 0, some (4, 5)⟩ 4 5 rfl rfl
+    obtain ⟨jB, pB, rB⟩ := h3 (true, false) 0 ⟨7, 1, some (5, 7)⟩ 5 7 rfl rfl
+    obtain ⟨oA, hoA, sA⟩ := h1 _ _ _ pA
+    obtain ⟨oB, hoB, sB⟩ := h1 _ _ _ pB
+    have eA : oA = ⟨5, 0, some (4, 5)⟩ := by
+      have : history y6 (false, false) 0 = some ⟨5, 0, some (4, 5)⟩ := rfl
+      rw [this] at hoA; cases hoA; rfl
+    have eB : oB = ⟨7, 1, some (5, 7)⟩ := by
+      have : history y6 (true, false) 0 = some ⟨7, 1, some (5, 7)⟩ := rfl
+      rw [this] at hoB; cases hoB; rfl
+    subst eA; subst eB
+    have rA : 5 = seqRun exStep 0 (seq.take jA) + 5 := rA
+    have rB : 7 = seqRun exStep 0 (seq.take jB) + 7 := rB
+    rcases Nat.lt_trichotomy jA jB with hlt | heq | hgt
+    · have : (5 : Nat) ≤ seqRun exStep 0 (seq.take jB) := le_seqRun_take sA hlt
+      omega
+    · subst heq
+      have := (h2 _ _ _ _ _ pA pB).1
+      cases this
+    · have : (7 : Nat) ≤ seqRun exStep 0 (seq.take jA) := le_seqRun_take sB hgt
+      omega
+
 end Multi
 
 #print axioms Multi.reach_node
@@ -774,3 +856,4 @@ end Multi
 #print axioms Multi.applied_agree_len
 #print axioms Multi.applied_prefix
 #print axioms Multi.x11_reach
+#print axioms Multi.linearizable_needs_sms
